@@ -203,3 +203,39 @@ def stmt_index(path, pred, start=0):
         if i >= start and e.kind in ('stmt', 'return') and pred(e):
             return i
     return None
+
+
+def callee(call, env):
+    """the called expression with path-local aliases substituted, as compact text (`pm.update` -> `self.parallel_manager.update`)"""
+    return ast.unparse(resolve(call.func, env)).replace(' ', '')
+
+
+def calls_on(path):
+    """[(event index, Call node, resolved callee text, env)] for every call met on the path, in order"""
+    out = []
+    for i, e in enumerate(path):
+        if e.kind in ('stmt', 'return'):
+            nodes = [e.node]
+            if isinstance(e.node, ast.With):
+                nodes = [it.context_expr for it in e.node.items]
+            for n in nodes:
+                for c in ast.walk(n):
+                    if isinstance(c, ast.Call):
+                        out.append((i, c, callee(c, e.env), e.env))
+        elif e.kind == 'cond':
+            for c in ast.walk(e.node):
+                if isinstance(c, ast.Call):
+                    out.append((i, c, callee(c, e.env), e.env))
+    return out
+
+
+def stores_on(path):
+    """[(event index, target text, resolved value)] for every assignment met on the path (chained targets give one entry each)"""
+    out = []
+    for i, e in enumerate(path):
+        if e.kind == 'stmt' and isinstance(e.node, ast.Assign):
+            for t in e.node.targets:
+                out.append((i, ast.unparse(t).replace(' ', ''), resolve(e.node.value, e.env)))
+        elif e.kind == 'stmt' and isinstance(e.node, ast.AnnAssign) and e.node.value is not None:
+            out.append((i, ast.unparse(e.node.target).replace(' ', ''), resolve(e.node.value, e.env)))
+    return out
